@@ -29,7 +29,7 @@ from .corpus import CORPUS
 
 PROP = "C04"
 FEATURE_SETS = ("none", "full")
-GRAMMARS = ["g1", "g2", "p1", "p3", "c1", "c2", "o1", "o2", "a1", "a3", "k1", "k2", "k4", "kc", "v1", "e1", "j1", "h1", "h2"]
+GRAMMARS = ["g1", "g2", "p1", "p3", "c1", "c2", "o1", "o2", "a1", "a3", "k1", "k2", "k4", "kc", "v1", "e1", "j1", "h1", "h2", "k5", "k6", "am", "c5", "f1"]
 LOOPS = ("many", "some", "count", "last")
 
 RENDER_MODELS = dict(tok.TOK_MODELS)
@@ -316,7 +316,12 @@ def make_jobs(tier, seed, build):
     nw = 2 if tier == "quick" else 3
     for gname in GRAMMARS:
         g = CORPUS[gname]
-        for shape in tok.all_shapes_by_words(nw if gname != "e1" else nw - 1, g.decl):
+        shapes = tok.all_shapes_by_words(nw if gname != "e1" else nw - 1, g.decl)
+        if gname in ("k1", "k5", "k6", "kc"):
+            # adjacent groups loop over scopes: one more word (reduced forms) - the shortest lines on which a
+            # block is followed by a consumed item and something else have three words
+            shapes = tok.all_shapes_by_words(nw + 1, g.decl, full_upto=nw)
+        for shape in shapes:
             jobs.append({"id": "render:%s:%s" % (gname, ",".join(shape)), "kind": "render", "grammar": gname, "shape": shape, "fs": "none"})
     for gname in ("g1", "c1", "a3", "k1"):
         g = CORPUS[gname]
